@@ -130,35 +130,29 @@ def check(an, rep, tier):
         G = ARR((Poly.sym('r1'), Poly.const(n), Poly.sym('r2')), 'f')
         I = interp.Interp(prog, dict(o))
         I.run_function(prog.func('core.core_tt_to_qtt'), {'G': G})
-        raised = any(x[1] == 'ValueError' for x in I.raises) and \
-            not I.entry_returns
+        from .common import dom3
+        st3, d3 = dom3(I.raises, I.entry_returns, bad)
         if n == 1:
             continue
         rep.add('P-domain', 'core.core_tt_to_qtt', 'mode size %d %s'
-                % (n, 'rejected' if bad else 'accepted'),
-                'ok' if raised == bad else 'violation',
-                '' if raised == bad else 'mode size %d is %s' % (
-                    n, 'not rejected' if bad else 'rejected'))
+                % (n, 'rejected' if bad else 'accepted'), st3,
+                '' if st3 == 'ok' else 'mode size %d is %s' % (n, d3))
         I = interp.Interp(prog, dict(o))
         I.run_function(prog.func('grid.ind_tt_to_qtt'),
                        {'I': specs.build('I[m,d]', 'I', 3), 'n': INT(n)})
-        raised = any(x[1] == 'ValueError' for x in I.raises) and \
-            not I.entry_returns
+        st3, d3 = dom3(I.raises, I.entry_returns, bad)
         rep.add('P-domain', 'grid.ind_tt_to_qtt', 'mode size %d %s'
-                % (n, 'rejected' if bad else 'accepted'),
-                'ok' if raised == bad else 'violation',
-                '' if raised == bad else 'mode size %d is %s' % (
-                    n, 'not rejected' if bad else 'rejected'))
+                % (n, 'rejected' if bad else 'accepted'), st3,
+                '' if st3 == 'ok' else 'mode size %d is %s' % (n, d3))
     for spec, bad in (('ttm6', True), ('ttm8', False)):
         I = interp.Interp(prog, dict(o))
         I.run_function(prog.func('optima.optima_qtt'),
                        {'Y': specs.build(spec, 'Y', 2)})
-        raised = any(x[1] == 'ValueError' for x in I.raises) and \
-            not I.entry_returns
+        from .common import dom3
+        st3, d3 = dom3(I.raises, I.entry_returns, bad)
         rep.add('P-domain', 'optima.optima_qtt', 'mode size %s %s'
-                % (spec[3:], 'rejected' if bad else 'accepted'),
-                'ok' if raised == bad else 'violation',
-                '' if raised == bad else 'wrong rejection behaviour')
+                % (spec[3:], 'rejected' if bad else 'accepted'), st3,
+                '' if st3 == 'ok' else 'wrong rejection behaviour: ' + d3)
     # --- tt_to_qtt / qtt_to_tt results
     for d in (2, 3):
         for spec, q in (('ttm4', 2), ('ttm8', 3)):
